@@ -7,7 +7,7 @@
   (Influx.Generated.Codec).  Every theorem is for ALL lists (no length bound other than
   "a slice length fits in 64 bits" where a length is written as a varint).
 -/
-import Influx.Lemmas.CodecTime
+import Influx.Lemmas.CodecTimeLen
 import Influx.Lemmas.CodecFloat
 import Influx.Lemmas.CodecBlock
 import Influx.Model.CodecRun
@@ -142,10 +142,16 @@ theorem blockDecode_packBlock (c : Compressor) (v : Vals) (ts : List Nat) (tb vb
 
 /-- **block round trip**, both block encoders, for a non-empty sequence of points -/
 theorem block_roundtrip (c : Compressor) (hc : Lossless c) (ts : List Nat) (v : Vals)
-    (hts : ∀ t ∈ ts, t < W) (hlen : ts.length < W) (hne : ts ≠ []) (hwf : ValsWF v) (hn : NoNaN v)
-    (hsz : ∀ tb, (timeEncodeS ts = some tb ∨ timeEncodeB ts = some tb) → tb.length < W) :
+    (hts : ∀ t ∈ ts, t < W) (hlen60 : ts.length < 2 ^ 60) (hne : ts ≠ []) (hwf : ValsWF v) (hn : NoNaN v) :
     (∃ b, blockEncodeS c ts v = some b ∧ decBlock c v b = some (ts, v)) ∧
     (∃ b, blockEncodeB c ts v = some b ∧ decBlock c v b = some (ts, v)) := by
+  have hlen : ts.length < W := Nat.lt_trans hlen60 (by decide)
+  have hsz : ∀ tb, (timeEncodeS ts = some tb ∨ timeEncodeB ts = some tb) → tb.length < W := by
+    intro tb h
+    have := timeEncode_length ts tb hts hlen h
+    have hW : W = 18446744073709551616 := rfl
+    have h60 : (2 : Nat) ^ 60 = 1152921504606846976 := by decide
+    rw [hW]; rw [h60] at hlen60; omega
   obtain ⟨⟨ta, ta1, ta2⟩, ⟨tb, tb1, tb2⟩⟩ := timestamp_roundtrip ts hts hlen
   obtain ⟨⟨va, va1, va2⟩, ⟨vb, vb1, vb2⟩⟩ := vals_roundtrip c hc v hwf hn
   have he : ts.isEmpty = false := by cases ts with | nil => exact absurd rfl hne | cons _ _ => rfl
@@ -163,8 +169,7 @@ def WellFormed : Op → Prop
   | .s8b _ => True
   | .codec v => ValsWF v ∧ NoNaN v
   | .time ts => (∀ t ∈ ts, t < W) ∧ ts.length < W
-  | .block ts v => (∀ t ∈ ts, t < W) ∧ ts.length < W ∧ ValsWF v ∧ NoNaN v ∧
-      ∀ tb, (timeEncodeS ts = some tb ∨ timeEncodeB ts = some tb) → tb.length < W
+  | .block ts v => (∀ t ∈ ts, t < W) ∧ ts.length < 2 ^ 60 ∧ ValsWF v ∧ NoNaN v
 
 theorem holdsOn_zz (c : Compressor) (x : Nat) (h : x < W) : holdsOn (.zz x) (run c (.zz x)) = true := by
   simp [holdsOn, run, Influx.Codec.zigzag_roundtrip x h]
@@ -197,7 +202,7 @@ theorem roundTrips_rtOf {α : Type} [DecidableEq α] (x : α) (encS encB : Optio
 /-- **C07 (partial)**: for every well-formed operation without NaN floats, and any lossless compressor,
     the statement holds of what the model of the codecs answers.  The hypothesis excludes exactly the
     recorded finding (NaN is not encodable, `C07_full_fails`); everything else in `WellFormed` says that
-    values are 64-bit words and byte-section lengths fit in a uvarint. -/
+    values are 64-bit words, slice lengths fit in 64 bits and a block has fewer than 2^60 points. -/
 theorem C07_holdsOn_partial (c : Compressor) (hc : Lossless c) (op : Op) (h : WellFormed op) :
     holdsOn op (run c op) = true := by
   cases op with
@@ -212,7 +217,7 @@ theorem C07_holdsOn_partial (c : Compressor) (hc : Lossless c) (op : Op) (h : We
     simp only [holdsOn, run]
     exact roundTrips_rtOf ts _ _ _ a b a1 b1 a2 b2
   | block ts v =>
-    obtain ⟨hts, hlen, hwf, hn, hsz⟩ := h
+    obtain ⟨hts, hlen, hwf, hn⟩ := h
     simp only [holdsOn, run]
     split
     · rfl
@@ -223,7 +228,7 @@ theorem C07_holdsOn_partial (c : Compressor) (hc : Lossless c) (op : Op) (h : We
         simp [blockEncodeS, blockEncodeB, rtOf]
       · next hl he =>
         have hne : ts ≠ [] := by intro h0; subst h0; simp at he
-        obtain ⟨⟨a, a1, a2⟩, ⟨b, b1, b2⟩⟩ := block_roundtrip c hc ts v hts hlen hne hwf hn hsz
+        obtain ⟨⟨a, a1, a2⟩, ⟨b, b1, b2⟩⟩ := block_roundtrip c hc ts v hts hlen hne hwf hn
         have hr := roundTrips_rtOf (ts, v) _ _ (decBlock c v) a b a1 b1 a2 b2
         simp only [Bool.and_eq_true, hr, true_and]
         simp [rtOf, a1, b1, a2, b2]
@@ -241,6 +246,7 @@ example : WellFormed (.s8b [1, 2, 3, 1152921504606846975]) := trivial
 example : WellFormed (.codec (.f [4607182418800017408, 9218868437227405312, 18442240474082181120])) :=
   ⟨⟨by decide, by decide⟩, by intro v hv; simp at hv; rcases hv with rfl | rfl | rfl <;> decide⟩
 example : WellFormed (.time [1000, 2000, 3001]) := ⟨by decide, by decide⟩
+example : WellFormed (.block [1000, 2000, 3001] (.b [true, false, true])) := ⟨by decide, by decide, (by decide : [true, false, true].length < W), trivial⟩
 example : Lossless { compress := id, decompress := some } := fun _ => rfl
 
 end Influx.Props.C07
